@@ -57,4 +57,12 @@ CHECKS = {
    technique='exhaustive pairs inside length-sorted blocks of the per-logic enumeration (~10^7 comparisons) + whole-scope set/dict key check + Hypothesis random triples; oracle = harness tree identity vs ==, !=, hash, set/dict, clone identity walk',
    text='For formulas of one logic over non-reserved identifier atoms, == / != / hash / set / dict behaviour must coincide with tree identity computed by the harness, in both argument orders and against independently built copies; clone() must be equal with the same tree and share no node object or children list; Bool(b) == b in both directions.',
    note='Trusted: harness tuples. Cross-logic equality and atoms that are reserved words are outside the property.'),
+ 'C07': dict(
+   technique='Hypothesis stateful (rule-based) machines over a pool of structures/formulas/fairness lists with repeat-earlier-call rules; history invariant = deep identity-aware snapshots + outcome memo; op-log delta debugging',
+   text='Random interleavings of modelcheck calls of the three checkers (text/object, with/without F, on the structure or a clone, in- and out-of-logic) over several structures and formulas; after every step every structure must equal its deep snapshot (contents and identity of every label/successor set, S0), every formula must have the same tree and print, and every repeated call must reproduce its memoised outcome (set or exception class).',
+   note='No reference semantics is involved. Formula sizes bounded (<=2 temporal operators per quantifier).'),
+ 'C19': dict(
+   technique='Hypothesis random structures with heterogeneous state/label types and operator-looking labels, two-step history (call, mutate the result, call again) in 16 processes; oracle = type/membership/ownership of the result, no exception, snapshot',
+   text='For structures whose states are ints, strings, tuples, frozensets or mixed and whose labels include operator-looking strings and non-strings, and formulas (object or quoted text) over K\'s labels and absent names: no exception of any type, the result is a set of K\'s states, it is a fresh object not aliasing anything in K, mutating it does not change the next result, K is unchanged.',
+   note='No exactness claim (C01-C03). Formula depth <= 3 (recursion limit is an interpreter setting). None/bools are not used as states.'),
 }
